@@ -46,7 +46,7 @@ def shards(tier):
 def required_counters(tier):
     return {'judged:exact-pixel': 5000, 'judged:exact-range': 5000, 'judged:full-pixel': 500, 'judged:empty-pixel': 500, 'judged:mask-sum': 50,
             'judged:convergence': 200, 'lane:circle-mask': 10, 'lane:ellipse-mask': 10, 'lane:circle-window': 10, 'lane:ellipse-window': 10,
-            'lane:nice-circle': 5, 'lane:nice-ellipse': 5}
+            'lane:nice-circle': 5, 'lane:nice-ellipse': 5, 'result-edited-then-requested-again': 20}
 
 
 # ---------------------------------------------------------------------------
@@ -280,6 +280,12 @@ def run_case(case, obs):
     if lane in ('circle-mask', 'nice-circle'):
         r, cx, cy = case['r'], case['cx'], case['cy']
         reg = CirclePixelRegion(PixCoord(cx, cy), r)
+        if case['rs'] % 3 == 0:
+            # an earlier, equal request whose result the caller edited in place must not influence this one
+            first = CirclePixelRegion(PixCoord(cx, cy), r).to_mask(mode='exact')
+            if np.asarray(first.data).flags.writeable:
+                np.asarray(first.data)[...] = 0.5
+            obs.count('result-edited-then-requested-again')
         m = reg.to_mask(mode='exact')
         bb = m.bbox
         xe = [bb.ixmin - 0.5 + i - cx for i in range(bb.shape[1] + 1)]
@@ -299,6 +305,11 @@ def run_case(case, obs):
         th = float(ang.to_value(u.rad))
         cx, cy = case['cx'], case['cy']
         reg = EllipsePixelRegion(PixCoord(cx, cy), 2 * a, 2 * b, ang)
+        if case['rs'] % 3 == 0:
+            first = EllipsePixelRegion(PixCoord(cx, cy), 2 * a, 2 * b, ang).to_mask(mode='exact')
+            if np.asarray(first.data).flags.writeable:
+                np.asarray(first.data)[...] = 0.5
+            obs.count('result-edited-then-requested-again')
         m = reg.to_mask(mode='exact')
         bb = m.bbox
         xe = [bb.ixmin - 0.5 + i - cx for i in range(bb.shape[1] + 1)]
